@@ -18,9 +18,11 @@ def _mix():
     return build.sym_mixture(nrtl=True)
 
 
-def _float_mix(M1, M2):
+def _float_mix(M1, M2, names="distinct"):
     c1 = build.sym_component("1", sym=False)
     c2 = build.sym_component("2", sym=False)
+    if names == "same":  # "for every mixture": nothing makes the names of the two components differ (water / heavy water copied from it)
+        c1.name = c2.name = "c"
     c1.molecular_weight = float(M1)
     c2.molecular_weight = float(M2)
     return pv.Mixture(name="m", first_component=c1, second_component=c2, nrtl_params=pv.NRTLParameters(1, 1, 1))
@@ -32,7 +34,7 @@ def concrete(inp):
     q = inp.get("q")
     if p is None or M1 is None or M2 is None or not (M1 > 0 and M2 > 0):
         return {"ok": True, "detail": "inputs outside the domain"}
-    mix = _float_mix(M1, M2)
+    mix = _float_mix(M1, M2, inp.get("names", "distinct"))
     bad = []
     if not 0 <= p <= 1:
         for typ in ("weight", "molar"):
@@ -77,14 +79,16 @@ def concrete(inp):
     return {"ok": not bad, "detail": "; ".join(bad)}
 
 
-def identities(job):
-    job.bound(no_unrolling_bound="rational identities in p, q, M1, M2")
+def identities(job, names="distinct"):
+    job.bound(no_unrolling_bound="rational identities in p, q, M1, M2", component_names=names)
     job.assume("0 <= p <= 1 (the constructor's own precondition)", "molar masses M1, M2 > 0")
     p, q = real("p"), real("q")
     mix = _mix()
+    if names == "same":
+        mix.first_component.name = mix.second_component.name = "c"
     M1, M2 = mix.first_component.molecular_weight, mix.second_component.molecular_weight
     dom = [p.t >= 0, p.t <= 1, q.t >= 0, q.t <= 1, M1.t > 0, M2.t > 0]
-    inputs = {"p": p.t, "q": q.t, "M1": M1.t, "M2": M2.t}
+    inputs = {"p": p.t, "q": q.t, "M1": M1.t, "M2": M2.t, "names": names}
     R = "vf.props.C15:concrete"
 
     for typ, fwd, back, oracle in (("weight", "to_molar", "to_weight", build.x_of_w), ("molar", "to_weight", "to_molar", build.w_of_x)):
@@ -98,7 +102,7 @@ def identities(job):
 
         n_ret = 0
         for leaf in job.explore(run, dom):
-            tag = "C15/%s/%s" % (typ, fwd)
+            tag = "C15/%s/%s" % (typ, fwd) + ("/like_named_components" if names == "same" else "")
             if leaf.kind != "returned":
                 # in-domain input must never be rejected by the conversions' own constructor calls
                 job.prove(tag + "/no_raise", dom + leaf.pc, z3.BoolVal(True), R, inputs)
@@ -129,6 +133,8 @@ def identities(job):
                 if k == 0:
                     pv_, m1, m2 = 0.15, 18.02, 46.07
                 want = getattr(Composition(p=pv_, type=typ), fwd)(_float_mix(m1, m2)).p
+                if not job.on_path(leaf, {"p": pv_, "M11": m1, "M12": m2, "M1": m1, "M2": m2}):
+                    continue
                 got = terms.evaluate(lift(f.p), {"p": pv_, "M11": m1, "M12": m2, "M1": m1, "M2": m2})
                 job.validated("%s(%r)" % (fwd, pv_), close(want, got), "%r vs %r" % (want, got))
         if n_ret == 0:
@@ -296,7 +302,7 @@ BATTERY_EXTRA = [("vf.props.C15:concrete_reject", {"p": -0.25}), ("vf.props.C15:
 
 
 def jobs(tier):
-    js = [("identities", "identities", {}), ("rejection", "rejection", {}), ("reuse", "reuse", {})]
+    js = [("identities", "identities", {}), ("identities_like_named", "identities", {"names": "same"}), ("rejection", "rejection", {}), ("reuse", "reuse", {})]
     if tier == "thorough":
         js.append(("crosshair", "crosshair", {}))
     return js
